@@ -11,6 +11,7 @@ import (
 	"tglib"
 
 	"verifh/ev"
+	"verifh/refcrypto"
 	"verifh/refsec"
 )
 
@@ -118,6 +119,15 @@ func c06MacKey(ctx refsec.Ctx, count uint32, pdu []byte) string {
 		return "mac:count-truncated-to-16-bits"
 	case try(ctx, count&0xff, refsec.DirUplink, pdu[6:]):
 		return "mac:count-without-overflow"
+	}
+	var b0 [4]byte
+	if ctx.IA == 1 {
+		b0 = refcrypto.EIA1(ctx.KnasInt, count, 0, refsec.DirUplink, pdu[6:], 8*len(pdu[6:]))
+	} else {
+		b0 = refcrypto.EIA2(ctx.KnasInt, count, 0, refsec.DirUplink, pdu[6:])
+	}
+	if bytes.Equal(b0[:], got) {
+		return "mac:bearer-0"
 	}
 	return "mac"
 }
